@@ -32,13 +32,19 @@ def write_files(root, files):
 
 def _limit(fsize):
     """preexec hook: the process may not grow any file beyond `fsize` bytes (the kernel kills it with SIGXFSZ in the
-    middle of the write that would: a crash point, not an error return)"""
+    middle of the write that would: a crash point, not an error return).  A negative value -n means: limit n with the
+    signal ignored, so that the write is *partially accepted* and then fails with EFBIG (a short write)."""
     if fsize is None:
         return None
 
     def hook():
         import resource
-        resource.setrlimit(resource.RLIMIT_FSIZE, (fsize, fsize))
+        import signal
+        n = fsize
+        if n < 0:
+            n = -n
+            signal.signal(signal.SIGXFSZ, signal.SIG_IGN)
+        resource.setrlimit(resource.RLIMIT_FSIZE, (n, n))
     return hook
 
 
